@@ -76,7 +76,10 @@ def close_pools():
 
 
 def classify(prop, cases, outs):
-    terms = [f"({prop.coq_case(c)}, {prop.coq_out(o)})" for c, o in zip(cases, outs)]
+    if hasattr(prop, "coq_pair"):
+        terms = [prop.coq_pair(c, o) for c, o in zip(cases, outs)]
+    else:
+        terms = [f"({prop.coq_case(c)}, {prop.coq_out(o)})" for c, o in zip(cases, outs)]
     return coqrun.classify(prop.CORR, terms, shard=getattr(prop, "SHARD", 400),
                            extra_require=getattr(prop, "EXTRA_REQUIRE", ""),
                            tagged=getattr(prop, "TAGGED", False))
@@ -189,6 +192,10 @@ def run_check(prop, tier="quick", seed=0, replay=None):
     codes, errors = ({}, [])
     if corr_ok and all_cases:
         codes, errors = classify(prop, all_cases, outs)
+        if errors and any("inconsistent assumptions" in e[1] for e in errors):
+            # another build changed a shared .vo between our build and the evaluation: rebuild, retry once
+            coqrun.build(prop.CORR_TARGETS)
+            codes, errors = classify(prop, all_cases, outs)
     elif not corr_ok:
         errors = [(0, "model does not build: " + corr_log[-1500:])]
 
